@@ -50,8 +50,12 @@ def _in_family(m, fi: FuncInfo) -> bool:
 def run(ctx: Ctx):
   m = model(ctx)
   eng = m.eng
-  for r in (r1, r2, r3, r4, r5, r6, r7, r8, r9, r10, r11):
+  for r in (r1, r2, r3, r4, r5, r6, r7, r8, r9, r10, r11, r13):
     ctx.guard(r, m)
+  ctx.include('R-C04-12', '"no interleaving leaves a producer or consumer blocked'
+              ' for ever" on the stop/failure paths: a recorded failure and a'
+              ' stop request wake ALL waiters on both conditions (R-C05-1,'
+              ' R-C05-5)', _c05_shared, m, min_instances=10)
   if eng.unknown_lock_exprs:
     ctx.note('lock-like expressions not resolved: '
              + '; '.join(sorted(eng.unknown_lock_exprs)))
@@ -820,12 +824,141 @@ def r11(ctx: Ctx, m):
   ctx.floor(rule, 2, len(all_raises))
 
 
+def _c05_shared(sub, m):
+  from mlmverif.props import c05
+  sub.guard(c05.r1, m)
+  sub.guard(c05.r5, m)
+
+
+class _Unknown(Exception):
+  pass
+
+
+def _fold(e: ast.AST, env: dict):
+  """Constant folding of a side-effect free expression over known field values."""
+  if isinstance(e, ast.Constant):
+    return e.value
+  if isinstance(e, ast.Attribute) and isinstance(e.value, ast.Name) and e.value.id == 'self':
+    if e.attr in env:
+      return env[e.attr]
+    raise _Unknown(e.attr)
+  if isinstance(e, ast.Name):
+    if e.id in env:
+      return env[e.id]
+    raise _Unknown(e.id)
+  if isinstance(e, ast.UnaryOp) and isinstance(e.op, ast.Not):
+    return not _fold(e.operand, env)
+  if isinstance(e, ast.UnaryOp) and isinstance(e.op, ast.USub):
+    return -_fold(e.operand, env)
+  if isinstance(e, ast.BoolOp):
+    val = None
+    for v in e.values:
+      val = _fold(v, env)
+      if isinstance(e.op, ast.And) and not val:
+        return val
+      if isinstance(e.op, ast.Or) and val:
+        return val
+    return val
+  if isinstance(e, ast.BinOp) and isinstance(e.op, (ast.Add, ast.Sub)):
+    l, r = _fold(e.left, env), _fold(e.right, env)
+    return l + r if isinstance(e.op, ast.Add) else l - r
+  if isinstance(e, ast.Compare):
+    left = _fold(e.left, env)
+    for op, c in zip(e.ops, e.comparators):
+      right = _fold(c, env)
+      ok = {ast.Eq: lambda a, b: a == b, ast.NotEq: lambda a, b: a != b, ast.Lt: lambda a, b: a < b,
+            ast.LtE: lambda a, b: a <= b, ast.Gt: lambda a, b: a > b, ast.GtE: lambda a, b: a >= b,
+            ast.Is: lambda a, b: a is b, ast.IsNot: lambda a, b: a is not b}.get(type(op))
+      if ok is None:
+        raise _Unknown(type(op).__name__)
+      if not ok(left, right):
+        return False
+      left = right
+    return True
+  raise _Unknown(type(e).__name__)
+
+
+def _fold_body(body, env):
+  for st in body:
+    if isinstance(st, ast.Expr) and isinstance(st.value, ast.Constant):
+      continue
+    if isinstance(st, ast.Assign) and len(st.targets) == 1 and isinstance(st.targets[0], ast.Name):
+      env[st.targets[0].id] = _fold(st.value, env)
+    elif isinstance(st, ast.If):
+      r_ = _fold_body(st.body if _fold(st.test, env) else st.orelse, env)
+      if r_ is not None:
+        return r_
+    elif isinstance(st, ast.Return):
+      return ('ret', _fold(st.value, env))
+    else:
+      raise _Unknown(type(st).__name__)
+  return None
+
+
+def r13(ctx: Ctx, m):
+  rule = 'R-C04-13'
+  ctx.rule(rule, 'a fresh queue is not "done": with the field values the'
+           ' constructor assigns (no producer started or stopped, no failure,'
+           ' no stop request; producer count unset or N > 0), enqueue_done'
+           ' folds to False — otherwise a consumer that asks before the'
+           ' producer thread has registered is answered with end-of-stream and'
+           ' never sees the elements')
+  init = m.qcls.methods.get('__init__')
+  done = m.repo.find_method(m.qcls, 'enqueue_done')
+  if init is None or done is None:
+    raise AnalysisError(f'{rule}: IteratorQueue.__init__/enqueue_done not found')
+  base = {}
+  for x in walk_no_nested(init.node):
+    if isinstance(x, ast.Assign) and len(x.targets) == 1 and is_self_attr(x.targets[0]) and isinstance(
+        x.value, ast.Constant):
+      base[x.targets[0].attr] = x.value.value
+  cnt = None
+  for x in walk_no_nested(init.node):
+    if isinstance(x, ast.Assign) and is_self_attr(x.targets[0]) and isinstance(x.value, ast.Name) and (
+        x.value.id in init.params()) and 'enqueuer' in x.value.id:
+      cnt = x.targets[0].attr
+  if cnt is None:
+    raise AnalysisError(f'{rule}: the producer-count field is not initialised from a parameter')
+  n = 0
+  for label, val in (('producer count unset (0)', 0), ('producer count 3, nobody started', 3)):
+    env = dict(base)
+    env[cnt] = val
+    n += 1
+    try:
+      res = _fold_body(done.node.body, env)
+    except _Unknown as e:
+      raise AnalysisError(f'{rule}: cannot fold enqueue_done ({e})')
+    if res is None:
+      raise AnalysisError(f'{rule}: enqueue_done has a path without return')
+    if res[1]:
+      ctx.fail(rule, done, f'IteratorQueue.enqueue_done is False for a fresh queue [{label}]',
+               f'with the constructor\'s initial field values ({label}) enqueue_done'
+               ' evaluates to True: a consumer that reads before the producer'
+               ' thread registers finds the queue empty and "done", marks it'
+               ' exhausted and returns end-of-stream without any element',
+               node=done.node)
+    else:
+      ctx.ok(rule, done, f'enqueue_done folds to False for a fresh queue [{label}]', done.node)
+  ctx.floor(rule, 2, n)
+
+
 # ---------------------------------------------------------------------------
 # Self-validation corpus (edits of the current tree, applied in memory)
 from mlmverif.selfcheck import B, OK  # noqa: E402
 
 _F = 'utils/iter_utils.py'
 VARIANTS = [
+    B('enqueue-done-true-when-nothing-started', _F,
+      '    if not self._max_enqueuer:\n      return False\n    return self._enqueue_start == self._enqueue_stop == self._max_enqueuer',
+      '    remaining = self._enqueue_start - self._enqueue_stop\n    return not remaining and self._enqueue_start >= self._max_enqueuer',
+      'R-C04-13'),
+    OK('enqueue-done-single-expression', _F,
+       '    if not self._max_enqueuer:\n      return False\n    return self._enqueue_start == self._enqueue_stop == self._max_enqueuer',
+       '    return bool(self._max_enqueuer) and self._enqueue_start == self._enqueue_stop == self._max_enqueuer'),
+    B('stop-wakes-one-producer', _F,
+      '    with self._enqueue_lock:\n      self._enqueue_lock.notify_all()\n    with self._dequeue_lock:\n      if not is_stop_iteration(exc):',
+      '    with self._enqueue_lock:\n      self._enqueue_lock.notify()\n    with self._dequeue_lock:\n      if not is_stop_iteration(exc):',
+      'R-C04-12'),
     B('revert-partial-batch-on-timeout', _F,
       '          if result:\n            # Return what is already dequeued rather than dropping it, the next\n            # call times out if the queue is still starved.\n            break\n          raise TimeoutError(',
       '          raise TimeoutError(', 'R-C04-11'),
